@@ -46,7 +46,7 @@ ExtraKinds == SetOf(ExtraOrder)
 Schemes    == {"dense", "sparse", "nonrid", "stylesLast", "noStyles", "collide"}
 ExtOrder   == <<"hyperlink", "extimage">>
 MediaOrder == <<"image1.png", "image10.jpeg", "Image2.PNG", "picture.png", "image5", "img-3.png",
-                "image0.png", "image0", "image2.jpeg">>
+                "image0.png", "image0", "image2.jpeg", "photo.jpg">>
 NsPrefixes == {"w", "ns0", "default"}
 PkgNs      == {"default", "prefixed"}
 TgStyles   == {"relative", "absolute"}
@@ -96,6 +96,7 @@ MediaCls(nm) ==
     [] nm = "image0"       -> "noext-image0"
     [] nm = "img-3.png"    -> "dash-name"
     [] nm = "image0.png"   -> "image0.png"
+    [] nm = "photo.jpg"    -> "jpg-name"
     [] OTHER               -> "media"
 HasExt(nm) == nm \notin {"image5", "image0"}
 
